@@ -100,6 +100,23 @@ async def main():
             await asyncio.sleep(0)
             if net2._expected_response_futures:
                 return True, f'{len(net2._expected_response_futures)} request(s) of a cancelled execute() still registered', None
+            # 5b. execute() cancelled while command.send() is suspended: the expectation registered before the send is gone
+            async def slow_send(*a, **k):
+                await asyncio.sleep(5)
+            keep = client.network.send_server_messages
+            client.network.send_server_messages = slow_send
+            task = asyncio.ensure_future(client.execute(GetUserStatusCommand('bob'), response=True, timeout=5))
+            await asyncio.sleep(0.01)
+            task.cancel()
+            try:
+                await task
+            except asyncio.CancelledError:
+                pass
+            await asyncio.sleep(0)
+            client.network.send_server_messages = keep
+            if net2._expected_response_futures:
+                return True, (f'{len(net2._expected_response_futures)} request(s) of an execute() that was cancelled while command.send() was suspended '
+                              'are still registered'), {'scenario': 'execute cancelled inside send'}
             # 6. a command identified by a ticket is completed by the reply that carries the ticket it was SENT with
             from aioslsk.commands import PeerGetDirectoryContentCommand
             from aioslsk.protocol.messages import PeerDirectoryContentsReply
